@@ -206,15 +206,21 @@ def builtin_signature_lemma():
 
 def units():
     from . import c01exec
-    from . import c02assign
-    return units_steploop() + units_single_step() + c01exec.units() + c02assign.units() + [LemmaUnit("lemma:builtin-signatures", builtin_signature_lemma),FunctionUnit(ResolveArgs()), FunctionUnit(ImplementLoops()),
+    from . import c02assign, c01emit, c01lower
+    return units_steploop() + units_single_step() + c01exec.units() + c02assign.units() + c01emit.units() + c01lower.units() + [LemmaUnit("lemma:builtin-signatures", builtin_signature_lemma),FunctionUnit(ResolveArgs()), FunctionUnit(ImplementLoops()),
                                FunctionUnit(ExecAssignNoSpuriousException())]
 
 
 LEVEL = "other"
 BOUNDED = {"quick": {"timeout_s": 90}, "thorough": {"timeout_s": 900}}
 TRUSTED_BASE = [
-    "A-EMIT (UNVERIFIED): each statement / expression text emitted by codegen/python.py means what the interpreter's exec_* does; no contract on a printer can state what the printed text computes",
+    "A-EMIT, statement level - now checked by translation validation of the templates (contracts/c01emit.py): every emit_inst_* / emit_if_* / emit_for_* / "
+    "emit_else_begin / emit_return is executed with text tracked concretely (expression text, managed names and repr() as placeholders) and the emitted lines must parse "
+    "to the same Python syntax tree as a reference statement written from exec_* (loop nests / subscripts / assignee tuples with 0, 1, 2 elements: stated bound); "
+    "lower_node / lower_ast / lower_inst (contracts/c01lower.py) are proved to emit, for every structured program, text whose block structure executes exactly the "
+    "program's trace (stack machine over the tree ADT, every valuation of the guards)",
+    "A-EXPR (UNVERIFIED): the expression printer (dagrt/codegen/expressions.py on top of pymbolic's stringifier) emits Python text whose value is the value the "
+    "interpreter's EvaluationMapper computes for the expression; the reference statements of c01emit.py are written by hand from exec_* (a spec, compared by reading)",
     "template extraction: the string constants passed to emit() in _emit_run/_emit_run_single_step are parsed as the bodies of functions whose header is synthesised from the PythonFunctionEmitter(name, args) call next to them",
     "A-PY: Python's call binding (positional, else keyword, else default; TypeError for doubly given, missing or left-over arguments) is the spec of resolve_args",
     "phase_transition_table[name] == (phase.next_phase, self.phase_<name>) as built by _emit_constructor (not under contract)",
@@ -231,5 +237,5 @@ EXPLANATION = ("PARTIAL (category other): decided are (1) the step protocol - Nu
                "propagating; (2) both run_single_step implementations move next_phase to the default successor before the body and forward "
                "every event; (3) resolve_args implements Python call binding exactly (values and TypeError conditions); (4) exec_Assign raises "
                "nothing but evaluation errors (zero-trip loops included); (5) the interpreter's builtins take the registry's argument names. "
-               "NOT decided: that emitted statement and expression text computes what exec_* computes (A-EMIT) - covered only by the bounded "
+               "(6) statement-level templates of the Python generator parse to the reference statements and lower_node emits text with exactly the structured program's trace. NOT decided: that emitted EXPRESSION text computes what the interpreter computes (A-EXPR) and the whole-program composition - covered only by the bounded "
                "stand-in comparing both backends and a program-order reference executor on generated builder programs.")
